@@ -106,6 +106,12 @@ struct Array {
     }
 
     void operator+=(Array &&src) {
+        if (this == &src) {
+            // Appending an array to itself: there is nothing to take over, and its storage is not to be released.
+            *this += static_cast<const Array &>(src);
+            return;
+        }
+
         if (Capacity() == 0) {
             setStorage(src.Storage());
             setSize(src.Size());
